@@ -42,6 +42,33 @@ def impl_select(per_day, per_site, upfront, stationary, crews, cls="method"):
     return m.cost_type, m.cost, m.get_upfront_cost(), m.get_crew_count()
 
 
+def impl_constructs(per_day, per_site, upfront, builds):
+    """builds = [(cls, stationary, crews)]: the real constructors run one after another on the SAME
+    properties dict where possible (deployment type and crew count are keys of that dict, so they are
+    set in place between constructions, the `cost` block is never touched by the harness).
+    Returns ([upfront_cost of each method], cost block before, cost block after)"""
+    import copy
+
+    props = C.properties(per_day=per_day, per_site=per_site, upfront=upfront)
+    before = copy.deepcopy(props[C.MP.COST])
+    out = []
+    for (cls, stationary, crews) in builds:
+        props[C.MP.DEPLOYMENT_TYPE] = C.pdc.Deployment_Types.STATIONARY if stationary else C.pdc.Deployment_Types.MOBILE
+        props[C.MP.N_CREWS] = crews
+        m = C.make_method_from(cls, props)
+        out.append(m.get_upfront_cost())
+    return out, before, copy.deepcopy(props[C.MP.COST])
+
+
+def constructs_line(per_day, per_site, upfront, builds):
+    return "constructs %d %s %d [%s]" % (per_day, opt(per_site), upfront,
+                                         ",".join("[%d,%d]" % (int(st), n) for (_, st, n) in builds))
+
+
+def constructs_reply(res):
+    return "[%s] %d" % (",".join(str(_num(u)) for u in res[0]), _num(res[2][C.MP.UPFRONT]))
+
+
 def select_line(per_day, per_site, upfront, stationary, crews):
     return "select %d %s %d %d %d" % (per_day, opt(per_site), upfront, int(stationary), crews)
 
